@@ -155,6 +155,50 @@ def _splice(tree):
             blk["stmts"] = out
 
 
+def _extend_option_as_push(tree):
+    """`v.extend({ s1; s2; if c { Some(x) } else { None } })` (an inlined helper that yields at most one item) is
+    `{ s1; s2; if c { v.push(x) } }`."""
+    def none(e):
+        e = T.peel(e) if e is not None else None
+        while e is not None and e.get("k") == "blockexpr" and not e["block"].get("stmts") and e["block"].get("tail") is not None:
+            e = T.peel(e["block"]["tail"])
+        return e is not None and e.get("k") == "path" and ((e.get("res") or {}).get("path") or "").endswith("None")
+
+    def some_arg(e):
+        e = T.peel(e)
+        while e.get("k") == "blockexpr" and not e["block"].get("stmts") and e["block"].get("tail") is not None:
+            e = T.peel(e["block"]["tail"])
+        if e.get("k") == "call" and len(e.get("args", [])) == 1 and (T.callee(e) or "").endswith("Some"):
+            return e["args"][0]
+        return None
+    for blk in T.nodes(tree, "block"):
+        for st in blk.get("stmts", []):
+            if st.get("k") != "expr":
+                continue
+            m = T.peel(st["e"])
+            if not (m.get("k") == "mcall" and m["name"] == "extend" and len(m["args"]) == 1):
+                continue
+            a = T.peel(m["args"][0])
+            pre = []
+            if a.get("k") == "blockexpr" and (a.get("inlined") or a.get("inlined_plain")) and not a.get("label") and a["block"].get("tail") is not None:
+                pre = a["block"].get("stmts", [])
+                a = T.peel(a["block"]["tail"])
+            if a.get("k") != "if" or a.get("els") is None or not none(a["els"]):
+                continue
+            x = some_arg(a["then"])
+            if x is None:
+                continue
+            push = {"k": "mcall", "id": m.get("id"), "ty": "()", "sp": m.get("sp"), "name": "push", "path": "std::vec::Vec::<T, A>::push",
+                    "generics": [], "resolved": "std::vec::Vec::<T, A>::push", "recv": m["recv"], "args": [x]}
+            cond_push = {"k": "if", "id": a.get("id"), "ty": "()", "sp": a.get("sp"), "cond": a["cond"],
+                         "then": {"k": "blockexpr", "id": 0, "ty": "()", "sp": a.get("sp"),
+                                  "block": {"k": "block", "sp": a.get("sp"), "stmts": [{"k": "expr", "sp": a.get("sp"), "e": push}], "tail": None}},
+                         "els": None}
+            st["e"] = {"k": "blockexpr", "id": 0, "ty": "()", "sp": m.get("sp"), "inlined_plain": True,
+                       "block": {"k": "block", "sp": m.get("sp"), "stmts": pre + [{"k": "expr", "sp": a.get("sp"), "e": cond_push}], "tail": None}}
+    _splice(tree)
+
+
 def inline_new_functions(program):
     new = set(getattr(program, "new_fns", ()) or ())
     program.inlined_away = set()
@@ -262,6 +306,7 @@ def inline_new_functions(program):
         _splice(b["tree"])
         if fresh0 is not None:
             _copy_propagate(b["tree"], fresh0)
+            _extend_option_as_push(b["tree"])
         for _, c in _calls_to(b["tree"], targets):
             if c != b["def_path"]:
                 remaining_calls[c] += 1
@@ -292,5 +337,7 @@ def strip_debug_assertions(program):
                 sp = n.get("sp")
                 n.clear()
                 n.update({"k": "tuple", "id": 0, "ty": "()", "sp": sp, "es": [], "stripped": "debug_assert"})
+                if sp:
+                    b.setdefault("stripped_spans", []).append(sp)
                 n_ += 1
     return n_
